@@ -989,6 +989,17 @@ func (c *Ctx) runTaint(errMethod, exec, res *ssa.Function) {
 				if !isC || core.CalleeName(cl.Common()) != "(reflect.Value).Interface" {
 					ok, why = false, "returns an assertion of "+core.Path(x.X)
 				}
+			case *ssa.Extract:
+				// `if err, ok := final.Interface().(error); ok { return err }`: the checked form of the same assertion
+				good := false
+				if ta, isT := x.Tuple.(*ssa.TypeAssert); isT && x.Index == 0 && core.TypeStr(ta.AssertedType) == "error" {
+					if cl, isC := ta.X.(*ssa.Call); isC && core.CalleeName(cl.Common()) == "(reflect.Value).Interface" {
+						good = true
+					}
+				}
+				if !good {
+					ok, why = false, "returns a derived value "+core.Path(rv)
+				}
 			default:
 				ok, why = false, "returns a derived value "+core.Path(rv)
 			}
